@@ -283,6 +283,16 @@ class StdioBurst(Suite):
                     if ver:
                         c["ver"] = ver
                     out.append(c)
+        # answers whose TEXT one JSON decoder of the library accepts and a stricter one refuses (a lone
+        # surrogate escape as JSON.stringify writes for text cut inside an emoji, NaN / Infinity as Python's
+        # json.dumps writes, a number beyond double range): written by the child exactly as given
+        for raw in ('{"t":"\\ud83d"}', '{"t":"a\\udc00b"}', '{"v":NaN}', '{"v":[Infinity,-Infinity]}', '{"v":1e400}', '{"v":-1E+400}', '[NaN]', '"\\ud83d"'):
+            for k in (0, 2):
+                for ver in (None, "2025-06-18"):
+                    c = {"k": k, "split": False, "id": f"burst-{k}", "D": 4 * P, "rawResult": raw}
+                    if ver:
+                        c["ver"] = ver
+                    out.append(c)
         return out
 
     @staticmethod
@@ -304,7 +314,10 @@ class StdioBurst(Suite):
             lines = [_json.dumps({"jsonrpc": "2.0", "method": "notifications/message", "params": {"i": i}}) for i in range(case["k"])]
             if case.get("poison"):
                 lines.append(poison_line(case["poison"]))
-            lines.append(_json.dumps({"jsonrpc": "2.0", "id": case["id"], "result": StdioBurst.want(case)}, ensure_ascii=False))
+            if case.get("rawResult") is not None:
+                lines.append('{"jsonrpc":"2.0","id":' + _json.dumps(case["id"]) + ',"result":' + case["rawResult"] + '}')
+            else:
+                lines.append(_json.dumps({"jsonrpc": "2.0", "id": case["id"], "result": StdioBurst.want(case)}, ensure_ascii=False))
             if case.get("batch"):
                 items = [_json.loads(x) for x in lines]
                 resp = items.pop()
@@ -367,8 +380,8 @@ class StdioBurst(Suite):
 
     def model_line(self, case, o=None):
         ev = [[1, {"k": "notif", "method": "notifications/message"}] for _ in range(case["k"])]
-        if "payload" in case and case["payload"] is None:
-            return None  # result: null is outside the model's payloads: oracle only
+        if ("payload" in case and case["payload"] is None) or case.get("rawResult") is not None:
+            return None  # result: null / non-finite numbers are outside the model's payloads: oracle only
         ev.append([1, {"k": "resp", "id": {"s": case["id"]}, "p": self.want(case)}])
         return {"m": "await", "id": {"s": case["id"]}, "D": case["D"], "P": P, "ev": ev, "eventsFirst": True}
 
@@ -379,12 +392,19 @@ class StdioBurst(Suite):
         return None if (o.get("outcome"), o.get("p")) == (m.get("outcome"), m.get("p")) else "differs"
 
     def kind(self, case, o):
-        return f"stdio-burst/{o.get('outcome')}/k{'<100' if case['k'] < 100 else '>=100'}/ver={case.get('ver')}" + ("/batch" if case.get("batch") else "") + (f"/monitor={case['monitor']}" if case.get("monitor") else "") + (f"/prior={case['prior']}" if case.get("prior") else "") + ("/payload=" + type(case["payload"]).__name__ if "payload" in case else "") + ("/poison=" + case["poison"] if case.get("poison") else "")
+        return f"stdio-burst/{o.get('outcome')}/k{'<100' if case['k'] < 100 else '>=100'}/ver={case.get('ver')}" + ("/batch" if case.get("batch") else "") + (f"/monitor={case['monitor']}" if case.get("monitor") else "") + (f"/prior={case['prior']}" if case.get("prior") else "") + ("/payload=" + type(case["payload"]).__name__ if "payload" in case else "") + ("/raw-text" if case.get("rawResult") is not None else "") + ("/poison=" + case["poison"] if case.get("poison") else "")
 
     def nontrivial(self, case, o):
         return case["k"] > 0
 
     def oracle(self, case, o):
+        if case.get("rawResult") is not None:
+            # the unmodified library delivers these answers (its decoder falls back to the lenient one):
+            # what the caller is handed is whatever that decoder makes of the text; that the response
+            # REACHES its caller is the property
+            if o.get("outcome") in ("returned", "harness-error"):
+                return None
+            return ("lost-response/other", f"single caller on a stdio connection: its response (result {case['rawResult']}) never reached it ({o.get('outcome')} {o.get('exc', '')})", {"outcome": "returned"})
         if "payload" in case and case["payload"] is None:
             # what the caller is handed for `result: null` is not defined by the property; that the
             # response REACHES it is
